@@ -121,6 +121,7 @@ type decodedFrame struct {
 	lenForm                       int
 	payload                       []byte // unmasked
 	key                           [4]byte
+	wireLen                       int // bytes of the whole frame on the wire
 }
 
 func decodeFrames(b []byte) ([]decodedFrame, error) {
@@ -129,6 +130,7 @@ func decodeFrames(b []byte) ([]decodedFrame, error) {
 		if len(b) < 2 {
 			return out, fmt.Errorf("truncated header")
 		}
+		start := len(b)
 		var f decodedFrame
 		f.fin, f.rsv1, f.rsv2, f.rsv3 = b[0]&0x80 != 0, b[0]&0x40 != 0, b[0]&0x20 != 0, b[0]&0x10 != 0
 		f.opcode = b[0] & 0x0f
@@ -169,6 +171,7 @@ func decodeFrames(b []byte) ([]decodedFrame, error) {
 				f.payload[i] ^= f.key[i&3]
 			}
 		}
+		f.wireLen = start - len(b)
 		out = append(out, f)
 	}
 	return out, nil
